@@ -5,8 +5,8 @@ C15 — code generated from an ITCH/OUCH/SQF XML specification implements exactl
 Model: `Model/GenSoupApp.lean` (`gen` = parser.py + the mustache templates + the `generate` entry points, at the level of
 abstract generated code; `evalModule` = importing that code; `denote` = the reference semantics written from the documented
 XML format).  Only property theorems and their non-vacuity examples live here; the proof is in
-`Lemmas/GenSoupAppLemmas.lean`.  Counterexamples on the unchanged generator for the shapes `wfSpec` excludes are in
-`Witness/C15.lean`.
+`Lemmas/GenSoupAppLemmas.lean`.  The specifications that were counterexamples before the repairs of the generator are
+kept as computed regressions in `Witness/C15.lean`.
 -/
 namespace NasdaqModel.Props.C15
 open NasdaqModel GenSoupApp
